@@ -190,6 +190,7 @@ CbEvent(st, f, doneActs) ==
       plan |-> IF kind = 0 THEN <<>> ELSE st.plan,
       pfl  |-> 1,           \* the plan's other forms (mutable iterator, first(), last(), emptiness test) agree with that sequence
       acts |-> doneActs,
+      pfl2 |-> 1,           \* a const view of the plan taken before the acts still describes the plan after them
       mact2 |-> st.active ]
 
 \* deliver callback frame f = Head(st.k), the user code performing `acts`
@@ -409,6 +410,7 @@ CallStep(st, o) ==
 
 RetEvent(st) ==
     [ e |-> "ret", op |-> st.call.op, r |-> st.r, pre |-> st.pendlog,
+      pfl |-> 1,            \* a const view of the plan taken before the operation still describes the plan after it
       act |-> st.active, ia |-> ActiveSet(st),
       on  |-> IF ~st.alive THEN 0 ELSE IF Manual THEN (IF IsActive(st) THEN 1 ELSE 0) ELSE 1,
       prev |-> st.prev,
